@@ -92,6 +92,10 @@ def join(a: Optional[AV], b: Optional[AV]) -> AV:
 def join_env(a: Dict[str, AV], b: Dict[str, AV]) -> Dict[str, AV]:
     out = {}
     for k in set(a) | set(b):
+        if k.startswith("@ver:"):
+            # binding stamps: equal on both sides -> kept; different -> the name was (re)bound on one path only: a fresh, unmatched stamp
+            out[k] = a.get(k) if a.get(k) == b.get(k) else ("join", a.get(k), b.get(k))
+            continue
         if k in a and k in b:
             out[k] = join(a[k], b[k])
         else:
@@ -289,6 +293,12 @@ class _State:
         self.env_at[id(st)] = env
         if isinstance(st, ast.Assign):
             v = self.ev(st.value, env)
+            if len(st.targets) == 1 and isinstance(st.targets[0], ast.Name) and isinstance(st.value, (ast.Compare, ast.BoolOp, ast.UnaryOp)):
+                # a boolean local (`may_alias = g is grad`): remember what it stands for, together with the abstract values of the names it reads,
+                # so that a later guard spelled through the local refines like the expression itself -- as long as none of them was re-bound
+                if not hasattr(self, "_bool_defs"):
+                    self._bool_defs = {}
+                self._bool_defs[st.targets[0].id] = (st.value, {x.id: env.get("@ver:" + x.id) for x in ast.walk(st.value) if isinstance(x, ast.Name)})
             env = dict(env)
             for t in st.targets:
                 self.assign(t, v, env, st)
@@ -415,6 +425,7 @@ class _State:
     def assign(self, t: ast.AST, v: AV, env: Dict[str, AV], st: ast.AST):
         if isinstance(t, ast.Name):
             env[t.id] = v
+            env["@ver:" + t.id] = id(st)  # which statement bound the name last (guards spelled through boolean locals check it)
         elif isinstance(t, (ast.Tuple, ast.List)):
             el = v.elem if v.kind == "cont" and v.elem is not None else (v.with_rel(VIEW) if v.kind in ("arr", "unknown") else UNKNOWN)
             # unpacking a tuple literal elementwise is handled in ev() via elem join; precise per-element when RHS is a literal:
@@ -454,6 +465,11 @@ class _State:
 
     # ------------------------------------------------------------------ refinement
     def refine(self, env: Dict[str, AV], test: ast.AST, truth: bool) -> Dict[str, AV]:
+        if isinstance(test, ast.Name) and test.id in getattr(self, "_bool_defs", {}):
+            expr, snap = self._bool_defs[test.id]
+            if all(env.get("@ver:" + k) == v for k, v in snap.items()):
+                return self.refine(env, expr, truth)
+            return env
         if isinstance(test, ast.UnaryOp) and isinstance(test.op, ast.Not):
             return self.refine(env, test.operand, not truth)
         if isinstance(test, ast.BoolOp):
